@@ -425,6 +425,18 @@ func (m *Mod) callEffects(fn *ssa.Function, instr ssa.CallInstruction, memo map[
 			if len(common.Args) > 0 && bi.Name() != "append" {
 				mark(m.rootsOf(fn, common.Args[0], memo, 0), instr.Pos())
 			}
+			if len(common.Args) > 0 && bi.Name() == "append" {
+				// append writes into the spare capacity of its first argument: when that slice is rooted
+				// at a package-level variable every caller shares the backing array (a data race and a
+				// cross-talk between callers), whatever is done with the result
+				if rs := m.rootsOf(fn, common.Args[0], memo, 0); len(rs.globals) > 0 {
+					g := newRoots()
+					for k := range rs.globals {
+						g.globals[k] = true
+					}
+					mark(g, instr.Pos())
+				}
+			}
 			for k, a := range common.Args {
 				if (bi.Name() == "copy" && k == 0) || !pointerLike(a.Type()) {
 					continue
